@@ -484,6 +484,14 @@ func buildDBWorld(c *fw.Ctx, name string, n int, withSigner bool) (*dbworld, err
 				} else {
 					key = []byte(fmt.Sprintf("key-%d-%d", len(w.sets)+len(w.refs), i))
 				}
+				if len(req.KVs) > 0 && r.IntN(4) == 0 { // a proper prefix / an extension of an earlier key of the same request
+					o := req.KVs[r.IntN(len(req.KVs))].Key
+					if r.IntN(3) != 0 && len(o) > 1 {
+						key = append([]byte{}, o[:1+r.IntN(len(o)-1)]...)
+					} else {
+						key = append(append([]byte{}, o...), byte('a'+r.IntN(3)))
+					}
+				}
 				if seen[string(key)] {
 					continue
 				}
